@@ -49,14 +49,18 @@ Definition mon_no_stranded (c : ccase) : bool :=
   negb (k_complete2 c) || match k_left2 c with [] => true | _ => false end.
 (* m1: finished implies captured *)
 Definition mon_captured (c : ccase) : bool := k_missing c =? 0.
+(* the rows that were in the queue and had not been reported finished in run 1 - whether or not they are still in the
+   database after run 1 (a row that vanished without a finish report is exactly what must not happen) *)
+Definition unfinished (c : ccase) : list N :=
+  filter (fun id => negb (mem id (k_finished1 c))) (k_all c).
 (* m2: every row that was not reported finished and had not been pre-processed is fetched again *)
 Definition mon_refetched (c : ccase) : bool :=
   negb (k_complete2 c) ||
-  forallb (fun id => mem id (k_preprocessed c) || mem id (k_fetched2 c)) (present c).
+  forallb (fun id => mem id (k_preprocessed c) || mem id (k_fetched2 c)) (present c ++ unfinished c).
 (* m3: ... and so is every row that HAD been pre-processed (its URL is in the seen-store already) *)
 Definition mon_refetched_preprocessed (c : ccase) : bool :=
   negb (k_complete2 c) ||
-  forallb (fun id => negb (mem id (k_preprocessed c)) || mem id (k_fetched2 c)) (present c).
+  forallb (fun id => negb (mem id (k_preprocessed c)) || mem id (k_fetched2 c)) (present c ++ unfinished c).
 (* m4: the WARC files are readable record by record up to the last complete record *)
 Definition mon_readable (c : ccase) : bool := k_midfile c =? 0.
 
